@@ -605,6 +605,148 @@ func genProbes(rng *rand.Rand, c cfg) []probe {
 	return out
 }
 
+func runCase(t *testing.T, r *vlib.Run, fam string, i int, c cfg, probes []probe, tag uint32) {
+	r.Progress(fam, i, fmt.Sprintf("%+v probes=%d", c, len(probes)))
+	var res *result
+	synctest.Test(t, func(t *testing.T) { res = run(c, probes, tag) })
+	r.Eval(len(probes))
+	for _, x := range res.f.V {
+		r.Violation(x.Key, fam, i, map[string]any{"cfg": c, "outcomes": res.outs}, "%s", x.Msg)
+	}
+	keys := make([]string, 0, len(res.f.C))
+	for k := range res.f.C {
+		keys = append(keys, k)
+	}
+	sort.Strings(keys)
+	for _, k := range keys {
+		r.Count(k, res.f.C[k])
+		if fam != "limits" {
+			r.Count(fam+"_"+k, res.f.C[k])
+		}
+	}
+	for _, s := range res.sigs {
+		if fam != "limits" {
+			s = fam + ":" + s
+		}
+		r.Nontrivial(s)
+	}
+	if i < 2 {
+		r.Sample(map[string]any{"family": fam, "cfg": c, "service_config": serviceConfig(c), "probes": len(probes), "first_outcomes": res.outs[:min(4, len(res.outs))]})
+	}
+}
+
+// ---- family above-default ----
+//
+// The pool of the main family stays below the built-in defaults, so there a
+// service-config limit can only LOWER a limit.  Here the service-config limits
+// lie above the 4 MiB default receive limit (and, for requests, above what a
+// default server would take), alone and combined with options below / above
+// them, and the effective limit is probed at L-1, L, L+1 with multi-MiB
+// messages: uncompressed, post-compression size (vz-a: exact; gzip: one or two)
+// and decompressed size (zeros).  Kept to a handful of RPCs per configuration.
+
+const mib = 1 << 20
+
+func unset() cfg {
+	return cfg{SCReq: -1, SCRsp: -1, DSend: -1, DRecv: -1, SSend: -1, SRecv: -1}
+}
+
+// around returns the probes L-1, L, L+1 in one direction.
+func around(dir string, l int, name, kind string, base probe, deltas ...int) []probe {
+	var out []probe
+	if len(deltas) == 0 {
+		deltas = []int{-1, 0, 1}
+	}
+	for n, d := range deltas {
+		pr := base
+		pr.Unary = n%2 == 0
+		pr.What = fmt.Sprintf("%s%+d/%s", name, d, kind)
+		pk := 0
+		if kind == "inflated" {
+			pk = 1
+		}
+		if dir == "req" {
+			pr.ReqSize, pr.ReqPK, pr.ReqWire = l+d, pk, kind == "wire"
+			pr.RspSize = 3
+		} else {
+			pr.RspSize, pr.RspPK, pr.RspWire = l+d, pk, kind == "wire"
+			pr.ReqSize = 3
+		}
+		out = append(out, pr)
+	}
+	return out
+}
+
+var none = probe{CSend: -1, CRecv: -1}
+
+var aboveDefault = []func(rng *rand.Rand) (cfg, []probe){
+	// 0: only the service config raises the receive limit above the default
+	func(rng *rand.Rand) (cfg, []probe) {
+		c := unset()
+		c.SCRsp, c.SCForm = 5*mib+rng.Intn(1000), rng.Intn(3)
+		return c, around("rsp", c.SCRsp, "client-recv", "plain", none)
+	},
+	// 1: just above the default: 4 MiB + 1
+	func(rng *rand.Rand) (cfg, []probe) {
+		c := unset()
+		c.SCRsp, c.SCForm = defRecv+1, rng.Intn(3)
+		return c, around("rsp", c.SCRsp, "client-recv", "plain", none)
+	},
+	// 2: nothing configured at all: the 4 MiB default itself
+	func(rng *rand.Rand) (cfg, []probe) {
+		return unset(), around("rsp", defRecv, "client-recv", "plain", none)
+	},
+	// 3: service config above the default, dial option below it but also above the default
+	func(rng *rand.Rand) (cfg, []probe) {
+		c := unset()
+		c.SCRsp, c.DRecv = 6*mib+rng.Intn(1000), 5*mib+rng.Intn(1000)
+		return c, around("rsp", c.DRecv, "client-recv", "plain", none)
+	},
+	// 4: service config above the default, per-call option above the service config;
+	//    and a per-call option below the default on the same channel
+	func(rng *rand.Rand) (cfg, []probe) {
+		c := unset()
+		c.SCRsp = 5*mib + rng.Intn(1000)
+		hi := probe{CSend: -1, CRecv: 7 * mib}
+		lo := probe{CSend: -1, CRecv: 3*mib + rng.Intn(1000)}
+		return c, append(around("rsp", c.SCRsp, "client-recv", "plain", hi), around("rsp", lo.CRecv, "client-recv", "plain", lo, 0, 1)...)
+	},
+	// 5: request side: service config above 4 MiB only (server accepts 8 MiB)
+	func(rng *rand.Rand) (cfg, []probe) {
+		c := unset()
+		c.SCReq, c.SRecv, c.SCForm = 5*mib+rng.Intn(1000), 8*mib, rng.Intn(3)
+		return c, around("req", c.SCReq, "client-send", "plain", none)
+	},
+	// 6: request side: service config above a dial option, both above 4 MiB; server default
+	//    receive limit (4 MiB) is then what stops the message
+	func(rng *rand.Rand) (cfg, []probe) {
+		c := unset()
+		c.SCReq, c.DSend = 6*mib+rng.Intn(1000), 5*mib+rng.Intn(1000)
+		return c, append(around("req", defRecv, "server-recv", "plain", none), around("req", c.DSend, "client-send", "plain", none, 1)...)
+	},
+	// 7: custom compressor: post-compression size exactly around the raised receive limit,
+	//    and zeros whose decompressed size is around it
+	func(rng *rand.Rand) (cfg, []probe) {
+		c := unset()
+		c.SCRsp, c.Comp = 5*mib+rng.Intn(1000), msgfix.VZA
+		return c, append(around("rsp", c.SCRsp, "client-recv", "wire", none), around("rsp", c.SCRsp, "client-recv", "inflated", none)...)
+	},
+	// 8: gzip: decompressed size around the raised receive limit; one incompressible
+	//    payload whose gzip form is one byte over it
+	func(rng *rand.Rand) (cfg, []probe) {
+		c := unset()
+		c.SCRsp, c.Comp = 5*mib+rng.Intn(1000), msgfix.Gzip
+		return c, append(around("rsp", c.SCRsp, "client-recv", "inflated", none), around("rsp", c.SCRsp, "client-recv", "wire", none, 1)...)
+	},
+	// 9: request side with the custom compressor: the raised send limit is judged on the
+	//    post-compression size (zeros far larger than the limit must pass)
+	func(rng *rand.Rand) (cfg, []probe) {
+		c := unset()
+		c.SCReq, c.SRecv, c.Comp = 5*mib+rng.Intn(1000), 8*mib, msgfix.VZA
+		return c, append(around("req", c.SCReq, "client-send", "wire", none), around("req", 6*mib, "client-send", "inflated", none, 0)...)
+	},
+}
+
 func TestVerifC21(t *testing.T) {
 	r := vlib.Start(t, "C21")
 	n := r.N(128, 1280)
@@ -619,26 +761,22 @@ func TestVerifC21(t *testing.T) {
 		c := genCfg(rng, i, r.Thorough())
 		tag := rng.Uint32()
 		probes := genProbes(rng, c)
-		r.Progress("limits", i, fmt.Sprintf("%+v probes=%d", c, len(probes)))
-		var res *result
-		synctest.Test(t, func(t *testing.T) { res = run(c, probes, tag) })
-		r.Eval(len(probes))
-		for _, x := range res.f.V {
-			r.Violation(x.Key, "limits", i, map[string]any{"cfg": c, "outcomes": res.outs}, "%s", x.Msg)
-		}
-		keys := make([]string, 0, len(res.f.C))
-		for k := range res.f.C {
-			keys = append(keys, k)
-		}
-		sort.Strings(keys)
-		for _, k := range keys {
-			r.Count(k, res.f.C[k])
-		}
-		for _, s := range res.sigs {
-			r.Nontrivial(s)
-		}
-		if i < 2 {
-			r.Sample(map[string]any{"cfg": c, "service_config": serviceConfig(c), "probes": len(probes), "first_outcomes": res.outs[:min(4, len(res.outs))]})
+		runCase(t, r, "limits", i, c, probes, tag)
+	}
+	// service-config limits ABOVE the built-in defaults (a handful of multi-MiB probes)
+	rounds := r.N(1, 3)
+	for round := 0; round < rounds; round++ {
+		for j := 0; j < len(aboveDefault); j++ {
+			i := round*len(aboveDefault) + j
+			if !r.Want("above-default", i) || (light() && j != 0) {
+				continue
+			}
+			rng := r.Rand("above-default", i)
+			c, probes := aboveDefault[j](rng)
+			if light() {
+				probes = probes[:min(3, len(probes))]
+			}
+			runCase(t, r, "above-default", i, c, probes, rng.Uint32())
 		}
 	}
 	floor := 150
@@ -647,7 +785,7 @@ func TestVerifC21(t *testing.T) {
 	}
 	r.Finish(vlib.Spec{
 		Level: "exploration",
-		Rule:  "configurations: service config maxRequestMessageBytes / maxResponseMessageBytes (method, service or default name form) x dial default MaxCallSendMsgSize / MaxCallRecvMsgSize x server MaxSendMsgSize / MaxRecvMsgSize, each unset or a value drawn without replacement from {0,7,100,1000,3000,10000,20000,50000,70000}; the first 64 indices enumerate all set/unset combinations, x compression {none (indices 0-63), gzip (64-127), vz-a (128-191, thorough tier)}; per configuration all four per-call combinations (MaxCallSendMsgSize, MaxCallRecvMsgSize set/unset) and for each of the four effective limits L (client send, server receive, server send, client receive; the 4 MB default in 1/12 of the configurations) one RPC with a message of L-1, L, L+1 bytes in that direction — uncompressed, or with compression both an incompressible payload whose POST-compression size is L-1/L/L+1 and an all-zero payload whose decompressed size is L-1/L/L+1 — plus a tiny exchange and one with both directions exactly at their limits; unary (Invoke) and streaming APIs mixed. Reference: effective client limit = min(service config, per-call option else dial default) or the default (send MaxInt32, receive 4 MB); stages client-send (wire size) -> server-receive (wire or decompressed size) -> server-send (wire) -> client-receive (wire or decompressed). Oracles: status OK and intact payloads iff no stage stops the exchange, else RESOURCE_EXHAUSTED; the handler never receives a request stopped at client-send/server-receive; tapped wire: no request DATA when stopped at client-send, no response DATA when stopped before client-receive, every wire message <= its sender's limit and of the modelled size. non-trivial = every judged probe; distinct = (stopping stage, which source decided the client send / receive limit, server limits set, compression, probe aim)",
+		Rule:  "configurations: service config maxRequestMessageBytes / maxResponseMessageBytes (method, service or default name form) x dial default MaxCallSendMsgSize / MaxCallRecvMsgSize x server MaxSendMsgSize / MaxRecvMsgSize, each unset or a value drawn without replacement from {0,7,100,1000,3000,10000,20000,50000,70000}; the first 64 indices enumerate all set/unset combinations, x compression {none (indices 0-63), gzip (64-127), vz-a (128-191, thorough tier)}; per configuration all four per-call combinations (MaxCallSendMsgSize, MaxCallRecvMsgSize set/unset) and for each of the four effective limits L (client send, server receive, server send, client receive; the 4 MB default in 1/12 of the configurations) one RPC with a message of L-1, L, L+1 bytes in that direction — uncompressed, or with compression both an incompressible payload whose POST-compression size is L-1/L/L+1 and an all-zero payload whose decompressed size is L-1/L/L+1 — plus a tiny exchange and one with both directions exactly at their limits; unary (Invoke) and streaming APIs mixed. Family above-default (10 configurations, 3-6 multi-MiB RPCs each): service-config maxResponseMessageBytes / maxRequestMessageBytes ABOVE the 4 MiB default (5-6 MiB, and exactly 4 MiB+1) alone, with a dial option between default and service config, with per-call options above the service config and below the default, nothing configured at all (4 MiB-1, 4 MiB, 4 MiB+1), request side with a server accepting 8 MiB and with a default server, with vz-a (post-compression and decompressed size around the raised limit) and gzip. Reference: effective client limit = min(service config, per-call option else dial default) or the default (send MaxInt32, receive 4 MB); stages client-send (wire size) -> server-receive (wire or decompressed size) -> server-send (wire) -> client-receive (wire or decompressed). Oracles: status OK and intact payloads iff no stage stops the exchange, else RESOURCE_EXHAUSTED; the handler never receives a request stopped at client-send/server-receive; tapped wire: no request DATA when stopped at client-send, no response DATA when stopped before client-receive, every wire message <= its sender's limit and of the modelled size. non-trivial = every judged probe; distinct = (stopping stage, which source decided the client send / receive limit, server limits set, compression, probe aim)",
 		Assumptions: []string{
 			"a per-call option replaces the dial default option of the same kind (CallOption semantics); the statement's 'dial/call option limit' is read that way",
 			"the server answers in the request's encoding (documented default), so response wire sizes are post-compression sizes of the same compressor",
